@@ -284,7 +284,9 @@ class Ctx:
         self.gate = {"ok": False}
         self.rule = ""
         self.extra = {}
-        self.budget_scale = 1.0
+        # VERIF_BUDGET_SCALE: run a tier with a larger case budget (what the change-directed budget does when a
+        # source file differs from the validated state) — used to test that the unchanged tree stays quiet there too
+        self.budget_scale = float(os.environ.get("VERIF_BUDGET_SCALE", "1"))
 
     # -- bookkeeping
     def quick(self) -> bool:
